@@ -70,6 +70,20 @@ func genPlainC(r *sim.Rand, tier, prop string) *sim.Case {
 			c.Ops = append(c.Ops, sim.Op{K: "bg", A: int64(r.Intn(60)), S: r.PickS("drain", "drain", "l0move", "rotate", "compactonce", "lmax")})
 		}
 	}
+	// Flush-stall variant (C34, 1 in 3 of the runs without background tasks): tiny
+	// memtables and the flush worker held back for one long preemption right after it
+	// took its first job, so that several sealed memtables holding the same keys wait
+	// in line while clients go on reading and overwriting them.
+	stall := prop == "C34" && !bg && r.Intn(3) == 0
+	if stall {
+		c.Cfg["bg"] = 1 // the flush worker is a scheduled task
+		c.Cfg["layers"] = 0
+		c.Cfg["flush_stall"] = 1
+		c.Cfg["memtable_size"] = r.Pick64(512, 1024)
+		c.Cfg["arena_size"] = 1 << 20
+		c.Cfg["l0_tables"] = 16
+		c.Cfg["value_threshold"] = 1 << 20
+	}
 	// Disk-error variant (C37, 1 in 3 of the runs without background tasks): one file
 	// operation fails once, either a WAL write (tiny WAL buffer, so appends reach the
 	// file inside a commit) or the growing of a value-log segment (after a first life
@@ -103,6 +117,14 @@ func genPlainC(r *sim.Rand, tier, prop string) *sim.Case {
 			x := r.Intn(10)
 			if bg && x < 5 && r.Intn(3) != 0 {
 				x = 6 // read-mostly: a fresh write in the memtable would hide the levels below
+			}
+			if stall {
+				if x < 6 {
+					c.Ops = append(c.Ops, sim.Op{K: "pset", A: int64(t), B: k, C: int64(60 + r.Intn(140))})
+				} else {
+					c.Ops = append(c.Ops, sim.Op{K: "pget", A: int64(t), B: k})
+				}
+				continue
 			}
 			switch {
 			case x < 4:
@@ -190,6 +212,9 @@ func execPlainC(t *testing.T, c *sim.Case, prop string) (res *sim.Result) {
 		scripts := make([][]sim.Op, ntasks)
 		actions := map[int][]string{}
 		closeTask, closeAt := -1, 0
+		if c.CfgInt("flush_stall", 0) == 1 {
+			w.Sched.HoldTask, w.Sched.HoldSite, w.Sched.HoldNth, w.Sched.HoldFirst = "w:lsm.flush.next", "lsm.flush.next", 1, false
+		}
 		if c.CfgInt("bg", 0) == 1 {
 			m.layout(int(c.CfgInt("layers", 2)))
 			if w.DB == nil {
